@@ -80,6 +80,39 @@ fn finite_choice(alts: &[Ty]) -> bool {
     alts.iter().any(|t| !matches!(t, Ty::SelfRef))
 }
 
+/// OF towers inside a component / alternative: X { c0 BOOLEAN, c1 (SEQUENCE|SET OF)^k <anonymous or constrained type> }
+/// (hoisting of the innermost anonymous type has to see through every OF level)
+pub fn of_towers(kmax: u32) -> Vec<Ty> {
+    let mut tys = vec![];
+    let inner: Vec<Ty> = vec![
+        Ty::Seq(Body::of(vec![Comp { name: "x".into(), ty: Ty::Int, opt: Opt::Req }, Comp { name: "y".into(), ty: Ty::Bool, opt: Opt::Optional }])),
+        Ty::Set(Body::of(vec![Comp { name: "x".into(), ty: Ty::Bool, opt: Opt::Req }])),
+        Ty::Choice(Body::of(vec![Comp { name: "x".into(), ty: Ty::Null, opt: Opt::Req }, Comp { name: "y".into(), ty: Ty::Int, opt: Opt::Req }])),
+        Ty::Enum,
+        Ty::U8,
+        Ty::Ref,
+    ];
+    for k in 1..=kmax {
+        for mask in 0..(1u32 << k) {
+            for leaf in &inner {
+                let mut t = leaf.clone();
+                for lvl in 0..k {
+                    t = if mask & (1 << lvl) != 0 { Ty::SetOf(Box::new(t)) } else { Ty::SeqOf(Box::new(t)) };
+                }
+                for opt in [Opt::Req, Opt::Optional] {
+                    let comps = vec![Comp { name: "c0".into(), ty: Ty::Bool, opt: Opt::Req }, Comp { name: "c1".into(), ty: t.clone(), opt: opt.clone() }];
+                    tys.push(Ty::Seq(Body::of(comps.clone())));
+                    tys.push(Ty::Set(Body::of(comps.clone())));
+                    if opt == Opt::Req {
+                        tys.push(Ty::Choice(Body::of(comps)));
+                    }
+                }
+            }
+        }
+    }
+    tys
+}
+
 impl Prop for C02 {
     type Case = Case;
     fn id(&self) -> &'static str {
@@ -250,6 +283,7 @@ impl Prop for C02 {
             }
             chains = next;
         }
+        tys.extend(of_towers(if tier.thorough() { 4 } else { 3 }));
         // environments
         let mut out = vec![];
         let envs: Vec<(&str, bool)> = vec![("AUTOMATIC", false), ("EXPLICIT", false), ("IMPLICIT", false), ("", false), ("AUTOMATIC", true), ("EXPLICIT", true), ("IMPLICIT", true), ("", true)];
